@@ -35,7 +35,21 @@ def pred_step_below_gap(spec):
     return any(b - a > spec['step'] for a, b in zip(st, st[1:]))
 
 
+def pred_c18_equal_rate_offset(spec):
+    """two tables with the same median sampling interval whose stamps differ (a tie of the
+    'which one is denser' test): C18 layout index with that shape"""
+    import statistics
+    from .props import c18
+    li = (spec.get('params') or {}).get('layout')
+    if li is None:
+        return False
+    _name, ta, tb, _c = c18.LAYOUTS[li]
+    med = lambda t: statistics.median([b - a for a, b in zip(t, t[1:])])
+    return med(ta) == med(tb) and list(ta) != list(tb) and not set(tb) <= set(ta) and not set(ta) <= set(tb)
+
+
 PREDICATES = {
+    'c18_equal_rate_offset': pred_c18_equal_rate_offset,
     'no_measurements': pred_no_measurements,
     'two_epochs_in_one_interval': pred_two_epochs_in_one_interval,
     'step_below_gap': pred_step_below_gap,
